@@ -205,7 +205,10 @@ def run_check(prop, tier, seed):
             failures.append('structural check crashed: %s' % traceback.format_exc(limit=5))
     # discharge
     t_solve = time.time()
+    if tier == 'thorough':
+        os.environ['PYVC_CROSSCHECK'] = '1'     # every `unsat` is re-submitted to the other solvers
     results = discharge(jobs, timeout_s=timeout)
+    cross = {'unsat_rechecked': 0, 'confirmed_by_second_solver': 0, 'disagreements': 0}
     solver_wall = time.time() - t_solve
     solver_cpu = 0.0
     for it, r in zip(job_items, results):
@@ -216,6 +219,12 @@ def run_check(prop, tier, seed):
         it.values = r.get('values')
         it.values_sexpr = r.get('values_sexpr')
         solver_cpu += r['time']
+        if 'confirmed_by' in r:
+            cross['unsat_rechecked'] += 1
+            cross['confirmed_by_second_solver'] += 1 if r['confirmed_by'] else 0
+            if r.get('disagreement'):
+                cross['disagreements'] += 1
+                failures.append('%s: %s' % (it.id, r['reason']))
     # refutation search for obligations neither solver decided: a candidate input from a
     # weakened query or from the contract's witness library counts only if the real code,
     # run on it, violates the executable contract (replay verdict `confirmed`)
@@ -400,6 +409,7 @@ def run_check(prop, tier, seed):
             'solver_cpu_s': round(solver_cpu, 2),
             'solver_wall_s': round(solver_wall, 2),
             'per_query_timeout_s': timeout,
+            'solver_cross_check': cross if tier == 'thorough' else 'thorough tier only',
             'vacuity_covers': {'checked': len(covers), 'reachable': sum(1 for c in covers if c.result == 'sat'),
                                'undecided': sum(1 for c in covers if c.result == 'unknown')},
             'known_finding_obligations': known_obls,
